@@ -696,6 +696,21 @@ pub fn compiled_batch(seed: u64, n_hist: usize, n_fam: usize) -> Batch {
                 .collect(),
         },
     }));
+    // a record produced by a macro_rules! template (render.rs): optional fields in all three spellings, one made
+    // optional by a step, one added, one removed
+    specials.push(struct_decl(
+        "TplRec",
+        &Record {
+            fields: vec![
+                f("k", Ty::U8),
+                Field { name: "v".into(), ty: Ty::Option(a(Ty::U32)), transient: None, opt_spelling: 0 },
+                Field { name: "w".into(), ty: Ty::Option(a(Ty::Str)), transient: None, opt_spelling: 1 },
+                Field { name: "x".into(), ty: Ty::Option(a(Ty::U16)), transient: None, opt_spelling: 2 },
+                f("s", Ty::Str),
+            ],
+            steps: vec![Step::MadeOptional { name: "v".into() }, Step::Added { name: "w".into(), default: Val::None }, Step::MadeOptional { name: "x".into() }, Step::Removed { name: "old".into() }],
+        },
+    ));
     // two pairs of declarations with the SAME identifier in different modules and different histories (vgen puts the
     // `..Other` one into a module of its own and aliases it)
     specials.push(struct_decl("Twin", &Record { fields: vec![f("id", Ty::U32), f("name", Ty::Str)], steps: vec![Step::Added { name: "name".into(), default: Val::str("anon") }] }));
